@@ -190,8 +190,28 @@ Proof.
 Qed.
 
 (* ---------- bounded worker exit ---------- *)
-Lemma c12_worker_one_iteration : forall t ls s, run_of t ls s -> (sel_after_close s <= 1)%N.
-Proof. intros t ls s R; exact (proj1 (i_sel _ (run_inv _ _ _ R))). Qed.
+Lemma tr_step : forall s l s', step s l = Some s' -> tr s' = tr s.
+Proof.
+  intros s l s' H; destruct l; unfold step in H; crunch; unfold note_cb, after_dispatch; simpl;
+    repeat match goal with
+    | |- context[if ?b then _ else _] => destruct b
+    | |- context[match ?n with O => _ | S _ => _ end] => destruct n end; simpl; try reflexivity;
+    try (match goal with H : do_cstep _ _ _ _ = Some _ |- _ =>
+           destruct (do_cstep_facts _ _ _ _ _ H) as (F&_); simpl; congruence end).
+  all: try (destruct (ph s); simpl; destruct (cs s); simpl; reflexivity).
+Qed.
+
+Lemma tr_accepts : forall ls s s', accepts s ls = Some s' -> tr s' = tr s.
+Proof.
+  induction ls as [|l ls IH]; simpl; intros s s' H; [inversion H; reflexivity|].
+  destruct (step s l) eqn:E; [|discriminate]. rewrite (IH _ _ H). eapply tr_step; eauto.
+Qed.
+
+Lemma c12_worker_one_iteration : forall t ls s, run_of t ls s -> is_ssh t = false -> (sel_after_close s <= 1)%N.
+Proof.
+  intros t ls s R T. refine (proj1 (i_sel _ (run_inv _ _ _ R) _)).
+  rewrite (tr_accepts _ _ _ R). exact T.
+Qed.
 
 Lemma closed_stable : forall s l s', Inv s -> step s l = Some s' ->
   closing s = true -> socket_open s = false -> closing s' = true /\ socket_open s' = false.
@@ -214,12 +234,12 @@ Lemma close_prog_len : forall t, length (close_prog t) <= 6.
 Proof. destruct t; simpl; lia. Qed.
 
 Lemma wfuel_step : forall s l s', step s l = Some s' -> closing s = true -> socket_open s = false ->
-  worker s <> WNotStarted ->
+  worker s <> WNotStarted -> is_ssh (tr s) = false ->
   (is_plain_worker_label l = true -> wfuel (worker s') + 1 <= wfuel (worker s)) /\
   (is_dispatch_label l = true -> wfuel (worker s') <= wfuel (worker s) + 9) /\
   (is_worker_label l = false -> worker s' = worker s).
 Proof.
-  intros s l s' H C O NS. pose proof (close_prog_len (tr s)) as L.
+  intros s l s' H C O NS T. pose proof (close_prog_len (tr s)) as L.
   destruct l; unfold step in H; unfold is_plain_worker_label; simpl;
     (repeat split; intro W; try discriminate W);
     crunch; unfold note_cb, after_dispatch; simpl;
@@ -232,20 +252,22 @@ Proof.
   all: try (destruct (ph s); simpl; destruct (cs s); simpl; reflexivity).
   all: try (destruct k; simpl; lia).
   all: try (rewrite C in *; simpl in *; discriminate).
+  all: try (rewrite T in *; simpl in *; discriminate).
 Qed.
 
 Lemma c12_worker_bound_from : forall ls s s', Inv s ->
-  closing s = true -> socket_open s = false -> worker s <> WNotStarted ->
+  closing s = true -> socket_open s = false -> worker s <> WNotStarted -> is_ssh (tr s) = false ->
   accepts s ls = Some s' ->
   count is_plain_worker_label ls + wfuel (worker s') <= wfuel (worker s) + 9 * count is_dispatch_label ls.
 Proof.
-  induction ls as [|l ls IH]; simpl; intros s s' I C O NS H.
+  induction ls as [|l ls IH]; simpl; intros s s' I C O NS T H.
   - inversion H; subst; lia.
   - destruct (step s l) as [s1|] eqn:E; [|discriminate].
     destruct (closed_stable _ _ _ I E C O) as [C1 O1].
     pose proof (started_mono _ _ _ E NS) as NS1.
-    specialize (IH s1 s' (inv_step _ _ _ I E) C1 O1 NS1 H).
-    destruct (wfuel_step _ _ _ E C O NS) as (P & D & K).
+    assert (T1 : is_ssh (tr s1) = false) by (rewrite (tr_step _ _ _ E); exact T).
+    specialize (IH s1 s' (inv_step _ _ _ I E) C1 O1 NS1 T1 H).
+    destruct (wfuel_step _ _ _ E C O NS T) as (P & D & K).
     unfold is_plain_worker_label in *.
     destruct (is_worker_label l) eqn:W; destruct (is_dispatch_label l) eqn:Dl; simpl in *.
     + specialize (D eq_refl). lia.
@@ -255,12 +277,13 @@ Proof.
 Qed.
 
 Lemma c12_worker_exits_bound : forall t ls0 s ls s', run_of t ls0 s ->
-  closing s = true -> socket_open s = false -> worker s <> WNotStarted ->
+  is_ssh t = false -> closing s = true -> socket_open s = false -> worker s <> WNotStarted ->
   accepts s ls = Some s' ->
   count is_plain_worker_label ls <= wfuel (worker s) + 9 * count is_dispatch_label ls.
 Proof.
-  intros t ls0 s ls s' R C O NS H.
-  pose proof (c12_worker_bound_from ls s s' (run_inv _ _ _ R) C O NS H). lia.
+  intros t ls0 s ls s' R T C O NS H.
+  assert (T' : is_ssh (tr s) = false) by (rewrite (tr_accepts _ _ _ R); exact T).
+  pose proof (c12_worker_bound_from ls s s' (run_inv _ _ _ R) C O NS T' H). lia.
 Qed.
 
 (* the worker is never stuck: unless it has ended, one of its own steps is enabled *)
